@@ -10,16 +10,16 @@ from x2p import impl as I
 HEADER = ('Require Import X2P.Base.Prelude X2P.Model.Facade X2P.Corr.C09.\n')
 TARGETS = ['theories/Props/C09.vo', 'theories/Corr/C09.vo']
 DIR = os.path.join(C.BUILD, 'c09')
-ENTRIES = [('Main', 'A', '1'), ('Main', 'B', '2'), ('Other', 'A', '1'), ('Main', 'C', '3')]
+ENTRIES = [('Main', 'A', '1'), ('Main', 'B', '2'), ('Other', 'A', '1'), ('Main', 'C', '3'), ('Main', 1, 11), ('Main', 11, 1), ('Main', 'B', 2)]      # the last three: integer coordinates whose digits read alike, a 0-based row next to a letter
 
 
 def mkbooks():
     from openpyxl import Workbook
     os.makedirs(DIR, exist_ok=True)
     specs = [
-        {'Main': {'A1': 1, 'A2': 2, 'B1': '=A1+A2', 'B2': '=SUM(A1:A2)*2', 'C3': '=IF(B1>2,"x","y")', 'D1': '=AND(A1>0,A2>0,B1>0,A1>0)', 'D2': '=IF(OR(A1>2,A2>1,A1>2),1,2)', 'D3': '=MAX(A1,A2,A1)+MIN(A2,A1,A2)', 'D4': '=SUM(A1:A2,A1:A2)+COUNT(A1,A2,A1)', 'D5': '=IFS(A1>5,1,A2>5,2,A1>5,3,TRUE,4)&CONCATENATE(A1,A2,A1)'}, 'Other': {'A1': '=Main!B2+1', 'B1': 5}},
+        {'Main': {'A1': 1, 'A2': 2, 'B1': '=A1+A2', 'B2': '=SUM(A1:A2)*2', 'C3': '=IF(B1>2,"x","y")', 'D1': '=AND(A1>0,A2>0,B1>0,A1>0)', 'D2': '=IF(OR(A1>2,A2>1,A1>2),1,2)', 'D3': '=MAX(A1,A2,A1)+MIN(A2,A1,A2)', 'D4': '=SUM(A1:A2,A1:A2)+COUNT(A1,A2,A1)', 'D5': '=IFS(A1>5,1,A2>5,2,A1>5,3,TRUE,4)&CONCATENATE(A1,A2,A1)', 'D6': '=SUMIF(A1:A2,">"&A1)+COUNTIFS(A1:A2,A2)+SUMIFS(A1:A2,A1:A2,"<"&B1)', 'B12': '=A1*7', 'L2': '=A2*9', 'B3': '=A1+100'}, 'Other': {'A1': '=Main!B2+1', 'B1': 5}},
         # same formula texts in the same cells as workbook 0, different constants (a process-wide cache keyed by text would leak)
-        {'Main': {'A1': 10, 'A2': 20, 'B1': '=A1+A2', 'B2': '=SUM(A1:A2)*2', 'C3': '=IF(B1>2,"x","y")', 'D1': '=AND(A1>0,A2>0,B1>0,A1>0)', 'D2': '=IF(OR(A1>2,A2>1,A1>2),1,2)', 'D3': '=MAX(A1,A2,A1)+MIN(A2,A1,A2)', 'D4': '=SUM(A1:A2,A1:A2)+COUNT(A1,A2,A1)', 'D5': '=IFS(A1>5,1,A2>5,2,A1>5,3,TRUE,4)&CONCATENATE(A1,A2,A1)'}, 'Other': {'A1': '=Main!B2+1', 'B1': 50}},
+        {'Main': {'A1': 10, 'A2': 20, 'B1': '=A1+A2', 'B2': '=SUM(A1:A2)*2', 'C3': '=IF(B1>2,"x","y")', 'D1': '=AND(A1>0,A2>0,B1>0,A1>0)', 'D2': '=IF(OR(A1>2,A2>1,A1>2),1,2)', 'D3': '=MAX(A1,A2,A1)+MIN(A2,A1,A2)', 'D4': '=SUM(A1:A2,A1:A2)+COUNT(A1,A2,A1)', 'D5': '=IFS(A1>5,1,A2>5,2,A1>5,3,TRUE,4)&CONCATENATE(A1,A2,A1)', 'D6': '=SUMIF(A1:A2,">"&A1)+COUNTIFS(A1:A2,A2)+SUMIFS(A1:A2,A1:A2,"<"&B1)', 'B12': '=A1*7', 'L2': '=A2*9', 'B3': '=A1+100'}, 'Other': {'A1': '=Main!B2+1', 'B1': 50}},
         {'Main': {'A1': 1, 'B2': '=A1+1', 'C3': 'eval(1)'}, 'Other': {'A1': 'os.system(1)'}},       # unsafe workbook
         # workbooks whose translation FAILS in the middle of a formula (state left behind by a failed translation would leak into the next one)
         {'Main': {'A1': 1, 'A2': 2, 'B1': '=A1+A2', 'B2': '=SUM(1;', 'C3': '=IF(B2>2,"x","y")'}, 'Other': {'A1': '=Main!B2+1', 'B1': 5}},      # malformed formula
@@ -241,6 +241,7 @@ def corpus():
             {'ops': [['get'], ['path', 1], ['write'], ['path', 0], ['get'], ['entry', 2], ['path', 1], ['get']]},
             {'ops': [['path', 0], ['entry', 1], ['get'], ['entry', 3], ['disable'], ['get'], ['enable'], ['enable'], ['get']]},
             {'ops': [['path', 3], ['get'], ['path', 0], ['get']]}, {'ops': [['path', 4], ['get'], ['path', 1], ['get'], ['write']]},
+            {'ops': [['path', 0], ['entry', 4], ['get'], ['entry', 5], ['get'], ['entry', 1], ['get'], ['entry', 6], ['get']]},
             {'ops': [['path', 7], ['get'], ['path', 8], ['get'], ['entry', 1], ['get']]}, {'ops': [['path', 8], ['get'], ['path', 7], ['get'], ['path', 8], ['get']]},
             {'ops': [['path', 0], ['get'], ['path', 6], ['get'], ['entry', 0], ['get']]}, {'ops': [['path', 6], ['entry', 1], ['get'], ['path', 1], ['get']]},
             {'ops': [['path', 5], ['get'], ['get'], ['path', 0], ['entry', 1], ['get']]}, {'ops': [['path', 3], ['entry', 3], ['get'], ['path', 1], ['get']]}]
